@@ -267,3 +267,41 @@ def nfa_accepts(nfa, cps) -> bool:
         if not cur:
             return False
     return bool(cur & set(nfa["final"]))
+
+
+def shortest_accepted(nfa, pool):
+    """a shortest string (code points) the NFA accepts, or None"""
+    from collections import deque
+    start = frozenset(nfa["init"])
+    seen = {start: None}
+    q = deque([start])
+    finals = set(nfa["final"])
+    while q:
+        cur = q.popleft()
+        if cur & finals:
+            out = []
+            while seen[cur] is not None:
+                cur, cp = seen[cur]
+                out.append(cp)
+            return out[::-1]
+        step = {}
+        for a, b, cs in nfa["edges"]:
+            if a in cur:
+                for cp in cs[:3] if len(cs) > 3 else cs:
+                    step.setdefault(cp, set()).add(b)
+        for cp, nxt in step.items():
+            f = frozenset(nxt)
+            if f not in seen:
+                seen[f] = (cur, cp)
+                q.append(f)
+    return None
+
+
+def widen_prefix(nfa, pool):
+    """the recogniser is used with search() rather than match(): any prefix is accepted"""
+    n = nfa["states"] + 1
+    edges = list(nfa["edges"]) + [(n, n, list(pool))]
+    for a, b, cs in nfa["edges"]:
+        if a in nfa["init"]:
+            edges.append((n, b, cs))
+    return {"init": sorted(set(nfa["init"]) | {n}), "final": nfa["final"], "edges": edges, "states": n}
